@@ -2,6 +2,7 @@ import Orx.KSRun
 import Orx.IW.Outs
 import Orx.IW.NoLoss
 import Orx.Props.C07
+import Orx.GenThms.Loops
 /-! # C04 Order: the shared iterator is one linearizable sequential cursor -/
 namespace Orx.Props.C04
 open Orx Orx.KS
@@ -93,5 +94,23 @@ theorem iter_handover_is_race_free (s : IW.Script) (ps : Nat → List IW.Req) (h
                        ((IW.hrunS C07.srcOrds s σ (IW.hinit ps)).core.th t).pc = .ins r b acc) :
     (IW.hrunS C07.srcOrds s σ (IW.hinit ps)).last.le ((IW.hrunS C07.srcOrds s σ (IW.hinit ps)).clk t) :=
   C07.hb_chain_under_stale_reads s ps hok σ hW t huse
+
+
+/-! ## the for-loop adaptors `values()` / `ids_and_values()` as in the source (`src/iter/wrappers/*.rs`) -/
+section SourceWrappers
+open Orx.RSL Orx.GenL Orx.GenThms.Loops
+
+/-- **a `for` loop over `values()` / `ids_and_values()` is a sequence of single pulls of the shared cursor**: the adaptors'
+`next` is exactly one `fetch_add(1)` returning the element at the value read (with its source index), and they override
+nothing else — `nth`, `skip`, `step_by`, `take`, … are std's default methods, i.e. more calls of that `next`. So "any
+single-threaded sequence of operations yields exactly what the wrapped sequential iterator would yield, in the same order"
+extends to every std adaptor a caller puts on top of them. -/
+theorem source_values_wrappers_are_single_pulls {ρ' : Type} (f : Nat) (it : ItH) :
+    (Values.next f ⟨it⟩ : PF ρ' _) = .faa .acqrel 1 (fun c => .ret (.norm (if c < it.len then some c else none))) ∧
+    (IdsAndValues.next f ⟨it⟩ : PF ρ' _) = .faa .acqrel 1 (fun c => .ret (.norm (if c < it.len then some (c, c) else none))) ∧
+    Values.iterator_overrides = ["next"] ∧ IdsAndValues.iterator_overrides = ["next"] :=
+  ⟨values_next f it, ids_and_values_next f it, wrappers_override_only_next.1, wrappers_override_only_next.2⟩
+
+end SourceWrappers
 
 end Orx.Props.C04
